@@ -26,6 +26,7 @@ class OnlyOne(Job):
                     getattr(c.w, name)(*args[name])
                     out.append("ok")
                 except Exception as e:
+                    core.check_leak(e)
                     out.append(type(e).__name__)
             return out
 
